@@ -8,14 +8,17 @@ Open Scope Z_scope.
 
 (* ---------- translating an atom over the selected variable only appends to-one joins ---------- *)
 Definition ext (st st' : jm) : Prop :=
-  j_inst st' = j_inst st /\ exists extra, j_joins st' = j_joins st ++ extra /\ forallb is_jrel extra = true.
+  j_inst st' = j_inst st /\ j_tvar st' = j_tvar st /\
+  exists extra, j_joins st' = j_joins st ++ extra /\ forallb is_jrel extra = true.
 Lemma ext_refl st : ext st st.
-Proof. split; auto. exists []. now rewrite app_nil_r. Qed.
+Proof. split; auto. split; auto. exists []. now rewrite app_nil_r. Qed.
 Lemma ext_trans a b c : ext a b -> ext b c -> ext a c.
 Proof.
-  intros [I1 [e1 [J1 R1]]] [I2 [e2 [J2 R2]]]. split; [congruence|].
+  intros [I1 [V1 [e1 [J1 R1]]]] [I2 [V2 [e2 [J2 R2]]]]. split; [congruence|]. split; [congruence|].
   exists (e1 ++ e2). rewrite J2, J1, <- app_assoc, forallb_app, R1, R2. auto.
 Qed.
+Lemma ext_set_io b st : ext st (set_io b st).
+Proof. split; auto. split; auto. exists []. cbn [set_io j_joins]. now rewrite app_nil_r. Qed.
 
 Section SynExt.
   Variable sc : schema.
@@ -26,7 +29,7 @@ Section SynExt.
   Proof.
     unfold alias_for. destruct (lookup_path (j_paths st) cur a); intros E; injection E as <- <-.
     - apply ext_refl.
-    - split; auto. exists [JRel cur a tgt]. auto.
+    - split; auto. split; auto. exists [JRel (j_io st) cur a tgt]. auto.
   Qed.
   Lemma twalk_ext chain : forall st cur ccls e st', twalk sc st cur ccls chain = ROk e st' -> ext st st'.
   Proof.
@@ -39,7 +42,7 @@ Section SynExt.
         eapply ext_trans; [eapply alias_for_ext; eauto|eapply IH; eauto].
   Qed.
   Lemma toperand_ext x st e st' :
-    operand_shape sc sel root x = true -> toperand sc vars sel root st x = ROk e st' -> ext st st'.
+    operand_shape sc sel root x = true -> toperand sc sel root st x = ROk e st' -> ext st st'.
   Proof.
     intros Hx H. destruct x as [v ch|c| |]; try discriminate.
     - unfold toperand, tattr in H. destruct (v =? sel); try discriminate. eapply twalk_ext; eauto.
@@ -48,24 +51,28 @@ Section SynExt.
   Lemma tcond_ext c : forall io st p st',
     cond_shape sc sel root c = true -> tcond sc vars sel root io st c = ROk p st' -> ext st st'.
   Proof.
-    induction c as [op l r|ct it|p1 IH1 q1 IH2|p1 IH1 q1 IH2|p1 _|x|cs0 it0]; intros io st p st' Hc H;
+    induction c as [op l r|ct it|p1 IH1 q1 IH2|p1 IH1 q1 IH2|p1 _|x|cs0 it0|]; intros io st p st' Hc H;
       cbn [cond_shape] in Hc; try discriminate.
     - destruct l as [v ch| | |]; try discriminate. apply andb_true_iff in Hc. destruct Hc as [Hc _].
       apply andb_true_iff in Hc. destruct Hc as [Hc _].
+      apply andb_true_iff in Hc. destruct Hc as [Hc _].
       apply andb_true_iff in Hc. destruct Hc as [Hc1 Hc2].
-      cbn [tcond] in H. unfold tcmp in H. rewrite (teqjoin_none sc sel root vars io st op v ch r Hc1 Hc2) in H.
+      cbn [tcond] in H. unfold tcmp in H. rewrite (teqjoin_none sc sel root vars io (set_io io st) op v ch r Hc1 Hc2) in H.
       destruct (negb (rel_check sc vars (eqne op) (OAttr v ch) r)); try discriminate.
-      destruct (toperand sc vars sel root st (OAttr v ch)) as [a st1| | |] eqn:E1; try discriminate.
-      destruct (toperand sc vars sel root st1 r) as [b st2| | |] eqn:E2; try discriminate.
+      destruct (toperand sc sel root (set_io io st) (OAttr v ch)) as [a st1| | |] eqn:E1; try discriminate.
+      destruct (toperand sc sel root st1 r) as [b st2| | |] eqn:E2; try discriminate.
+      destruct (lit_mismatch sc vars (OAttr v ch) r || lit_mismatch sc vars r (OAttr v ch)); try discriminate.
       destruct (negb (eqne op) && (enum_col sc vars (OAttr v ch) || enum_col sc vars r)); try discriminate.
       destruct (mk_cmp op a b); try discriminate. injection H as _ <-.
+      eapply ext_trans; [apply (ext_set_io io)|].
       eapply ext_trans; [eapply (toperand_ext (OAttr v ch)); eauto | eapply (toperand_ext r); eauto].
     - destruct ct as [| |cs|]; try discriminate. destruct it as [v ch| | |]; try discriminate.
-      apply andb_true_iff in Hc. destruct Hc as [Hc1 Hc2].
+      apply andb_true_iff in Hc. destruct Hc as [Hc _]. apply andb_true_iff in Hc. destruct Hc as [Hc1 Hc2].
       cbn [tcond] in H. unfold tcontains in H.
       destruct (is_rel sc vars (OList cs) || is_rel sc vars (OAttr v ch)); try discriminate.
-      destruct (tattr sc sel root st v ch) as [a st1| | |] eqn:E1; try discriminate.
-      injection H as _ <-. eapply (toperand_ext (OAttr v ch)); eauto.
+      destruct (tattr sc sel root (set_io io st) v ch) as [a st1| | |] eqn:E1; try discriminate.
+      destruct (existsb (operand_mismatch sc vars (OAttr v ch)) cs); try discriminate.
+      injection H as _ <-. eapply ext_trans; [apply (ext_set_io io)|]. eapply (toperand_ext (OAttr v ch)); eauto.
     - apply andb_true_iff in Hc. destruct Hc as [Hc1 Hc2]. cbn [tcond] in H.
       destruct (tcond sc vars sel root io st p1) as [a st1| | |] eqn:E1; try discriminate.
       destruct (tcond sc vars sel root io st1 q1) as [b st2| | |] eqn:E2; try discriminate.
@@ -75,14 +82,15 @@ Section SynExt.
       destruct (tcond sc vars sel root true st1 q1) as [b st2| | |] eqn:E2; try discriminate.
       injection H as _ <-. eapply ext_trans; eauto.
     - destruct x as [v ch| | |]; try discriminate. cbn [tcond] in H.
-      destruct (tattr sc sel root st v ch) as [a st1| | |] eqn:E1; try discriminate. injection H as _ <-.
-      eapply (toperand_ext (OAttr v ch)); eauto.
+      destruct (tattr sc sel root (set_io io st) v ch) as [a st1| | |] eqn:E1; try discriminate. injection H as _ <-.
+      eapply ext_trans; [apply (ext_set_io io)|]. eapply (toperand_ext (OAttr v ch)); eauto.
     - destruct it0 as [v ch| | |]; try discriminate.
-      apply andb_true_iff in Hc. destruct Hc as [Hc1 Hc2].
+      apply andb_true_iff in Hc. destruct Hc as [Hc _]. apply andb_true_iff in Hc. destruct Hc as [Hc1 Hc2].
       cbn [tcond] in H. unfold tcontains in H.
       destruct (is_rel sc vars (OList cs0) || is_rel sc vars (OAttr v ch)); try discriminate.
-      destruct (tattr sc sel root st v ch) as [a st1| | |] eqn:E1; try discriminate.
-      injection H as _ <-. eapply (toperand_ext (OAttr v ch)); eauto.
+      destruct (tattr sc sel root (set_io io st) v ch) as [a st1| | |] eqn:E1; try discriminate.
+      destruct (existsb (operand_mismatch sc vars (OAttr v ch)) cs0); try discriminate.
+      injection H as _ <-. eapply ext_trans; [apply (ext_set_io io)|]. eapply (toperand_ext (OAttr v ch)); eauto.
   Qed.
 End SynExt.
 
@@ -103,73 +111,83 @@ Section Syn2.
 
   Definition is_target (j : join) : bool :=
     match j with
-    | JCross c => c =? c2
+    | JCross _ c => c =? c2
     | JEq c _ a _ => (c =? c2) && Nat.eqb a 0
     | _ => false
     end.
-  (* no table joined for v2 yet: only to-one joins; joined: exactly one join brings in c2's table, at instance ti *)
+  (* no table joined for v2 yet: only to-one joins; joined: exactly one join brings in c2's table, at instance ti, for v2 *)
   Definition tstruct (st : jm) : Prop :=
     match j_inst st with
-    | [] => forallb is_jrel (j_joins st) = true
-    | [(c, ti)] => c = c2 /\ exists js1 jT js2, j_joins st = js1 ++ jT :: js2 /\ ti = S (length js1) /\
+    | [] => j_tvar st = [] /\ forallb is_jrel (j_joins st) = true
+    | [(c, ti)] => c = c2 /\ j_tvar st = [(c2, v2)] /\
+                   exists js1 jT js2, j_joins st = js1 ++ jT :: js2 /\ ti = S (length js1) /\
                             forallb is_jrel js1 = true /\ forallb is_jrel js2 = true /\ is_target jT = true
     | _ => False
     end.
   Lemma tstruct_ext st st' : tstruct st -> ext st st' -> tstruct st'.
   Proof.
-    unfold tstruct. intros H [I [extra [J R]]]. rewrite I. destruct (j_inst st) as [|[c ti] [|]]; auto.
-    - rewrite J, forallb_app, H, R. auto.
-    - destruct H as [-> [js1 [jT [js2 [J0 [T [R1 [R2 RT]]]]]]]]. split; auto.
+    unfold tstruct. intros H [I [V [extra [J R]]]]. rewrite I, V. destruct (j_inst st) as [|[c ti] [|]]; auto.
+    - destruct H as [Hv H]. split; auto. rewrite J, forallb_app, H, R. auto.
+    - destruct H as [-> [Hv [js1 [jT [js2 [J0 [T [R1 [R2 RT]]]]]]]]]. split; auto. split; auto.
       exists js1, jT, (js2 ++ extra). rewrite J, J0, <- app_assoc. simpl. rewrite forallb_app, R2, R. auto.
   Qed.
+  Lemma tstruct_set_io b st : tstruct st -> tstruct (set_io b st).
+  Proof. intros H. exact H. Qed.
 
   Definition eqc (ti : nat) (tfk afk : Z) : spred := SCmp OEq (SCol ti tfk) (SCol 0%nat afk).
   Definition st_join (io : bool) (st : jm) (tfk afk : Z) : jm :=
     {| j_paths := j_paths st; j_inst := (c2, S (length (j_joins st))) :: j_inst st;
-       j_joins := j_joins st ++ [if io then JCross c2 else JEq c2 tfk 0%nat afk] |}.
+       j_tvar := (c2, v2) :: j_tvar st;
+       j_joins := j_joins st ++ [if io then JCross true c2 else JEq c2 tfk 0%nat afk]; j_io := j_io st |}.
+
+  Lemma tstruct_lookup st : tstruct st ->
+    match assoc c2 (j_inst st) with
+    | Some ti => j_inst st = [(c2, ti)] /\ j_tvar st = [(c2, v2)]
+    | None => j_inst st = []
+    end.
+  Proof.
+    unfold tstruct. destruct (j_inst st) as [|[c ti] [|]]; simpl; auto; try tauto.
+    intros [-> [Hv _]]. now rewrite Z.eqb_refl.
+  Qed.
 
   (* what _handle_attribute_equality_join does with an equality join atom *)
   Lemma teqjoin_atom io st l r r1 r2 sw :
-    join_atom sel v2 l r = Some (r1, r2, sw) ->
+    tstruct st -> join_atom sel v2 l r = Some (r1, r2, sw) ->
     is_frel (field_kind sc root r1) = true -> is_frel (field_kind sc c2 r2) = true ->
-    teqjoin sc vars root io st OEq l r =
+    teqjoin sc vars sel root io st OEq l r =
       Some (match assoc c2 (j_inst st) with
             | Some ti => ROk (Some (eqc ti r2 r1)) st
             | None => ROk (if io then Some (eqc (S (length (j_joins st))) r2 r1) else None) (st_join io st r2 r1)
             end).
   Proof.
-    intros Hj K1 K2. unfold join_atom in Hj.
+    intros Hs Hj K1 K2. unfold join_atom in Hj. assert (L := tstruct_lookup st Hs).
     destruct l as [a [|x [|]]| | |]; try discriminate. destruct r as [b [|y [|]]| | |]; try discriminate.
     assert (Cr := c2_not_root).
+    assert (TV : forall ti, assoc c2 (j_inst st) = Some ti -> assoc c2 (j_tvar st) = Some v2).
+    { intros ti E. rewrite E in L. destruct L as [_ ->]. simpl. now rewrite Z.eqb_refl. }
     destruct ((a =? sel) && (b =? v2)) eqn:E1.
     - injection Hj as <- <- <-. apply andb_true_iff in E1. destruct E1 as [Ea Eb].
       apply Z.eqb_eq in Ea, Eb. subst a b.
-      unfold teqjoin. rewrite Z.eqb_sym, Hne, vars_sel, vars_v2. cbn [last_of].
+      unfold teqjoin. rewrite Z.eqb_sym, Hne, vars_sel, vars_v2.
       destruct (field_kind sc root x) as [[|t1]|]; try discriminate.
       destruct (field_kind sc c2 y) as [[|t2]|]; try discriminate.
-      rewrite Z.eqb_refl. cbn [orb]. rewrite Hrel. destruct (assoc c2 (j_inst st)); reflexivity.
+      rewrite Z.eqb_refl. cbn [orb]. rewrite Hrel.
+      destruct (assoc c2 (j_inst st)) as [ti|] eqn:Ei; [rewrite (TV ti eq_refl), Z.eqb_refl|]; reflexivity.
     - destruct ((a =? v2) && (b =? sel)) eqn:E2; try discriminate.
       injection Hj as <- <- <-. apply andb_true_iff in E2. destruct E2 as [Ea Eb].
       apply Z.eqb_eq in Ea, Eb. subst a b.
-      unfold teqjoin. rewrite Hne, vars_sel, vars_v2. cbn [last_of].
+      unfold teqjoin. rewrite Hne, vars_sel, vars_v2.
       destruct (field_kind sc c2 x) as [[|t2]|]; try discriminate.
       destruct (field_kind sc root y) as [[|t1]|]; try discriminate.
-      rewrite Cr, Z.eqb_refl. cbn [orb]. rewrite Hrel. destruct (assoc c2 (j_inst st)); reflexivity.
+      rewrite Z.eqb_refl. cbn [orb]. rewrite Hrel.
+      destruct (assoc c2 (j_inst st)) as [ti|] eqn:Ei; [rewrite (TV ti eq_refl), Z.eqb_refl|]; reflexivity.
   Qed.
 
-  Lemma tstruct_lookup st : tstruct st ->
-    match assoc c2 (j_inst st) with
-    | Some ti => j_inst st = [(c2, ti)]
-    | None => j_inst st = []
-    end.
-  Proof.
-    unfold tstruct. destruct (j_inst st) as [|[c ti] [|]]; simpl; auto; try tauto.
-    intros [-> _]. now rewrite Z.eqb_refl.
-  Qed.
   Lemma tstruct_join io st tfk afk : j_inst st = [] -> tstruct st -> tstruct (st_join io st tfk afk).
   Proof.
-    unfold tstruct. intros E H. rewrite E in H. unfold st_join. cbn [j_inst j_joins]. rewrite E. split; auto.
-    exists (j_joins st), (if io then JCross c2 else JEq c2 tfk 0%nat afk), []. repeat split; auto.
+    unfold tstruct. intros E H. rewrite E in H. destruct H as [Hv H]. unfold st_join. cbn [j_inst j_joins j_tvar]. rewrite E, Hv.
+    split; auto. split; auto.
+    exists (j_joins st), (if io then JCross true c2 else JEq c2 tfk 0%nat afk), []. repeat split; auto.
     destruct io; simpl; now rewrite Z.eqb_refl.
   Qed.
 
@@ -184,7 +202,7 @@ Section Syn2.
     { intros c0 io st p st' Hc Hs H. assert (E := tcond_ext sc sel root vars c0 io st p st' Hc H).
       split; [eapply tstruct_ext; eauto|]. split; [destruct E as [I _]; now rewrite I|].
       eapply tcond_safe; eauto. }
-    induction c as [op l r|ct it|p1 IH1 q1 IH2|p1 IH1 q1 IH2|p1 _|x|cs0 it0]; intros io st p st' Hc Hs H;
+    induction c as [op l r|ct it|p1 IH1 q1 IH2|p1 IH1 q1 IH2|p1 _|x|cs0 it0|]; intros io st p st' Hc Hs H;
       cbn [cond_shape2] in Hc; try discriminate.
     - assert (NJ : join_atom sel v2 l r = None \/ op <> OEq -> 
                    tstruct st' /\ (has_join sel v2 (CCmp op l r) = true -> j_inst st' <> []) /\ (j_inst st <> [] -> j_inst st' <> []) /\
@@ -196,11 +214,12 @@ Section Syn2.
       destruct op; try (apply NJ; right; discriminate).
       destruct (join_atom sel v2 l r) as [[[r1 r2] sw]|] eqn:Ej; [|apply NJ; now left].
       apply andb_true_iff in Hc. destruct Hc as [K1 K2].
-      cbn [tcond] in H. unfold tcmp in H. rewrite (teqjoin_atom io st l r r1 r2 sw Ej K1 K2) in H.
-      assert (L := tstruct_lookup st Hs). destruct (assoc c2 (j_inst st)) as [ti|].
-      + injection H as <- <-. repeat split; auto; try (rewrite L; discriminate).
+      cbn [tcond] in H. unfold tcmp in H.
+      rewrite (teqjoin_atom io (set_io io st) l r r1 r2 sw (tstruct_set_io io st Hs) Ej K1 K2) in H.
+      assert (L := tstruct_lookup st Hs). cbn [set_io j_inst] in H. destruct (assoc c2 (j_inst st)) as [ti|].
+      + injection H as <- <-. destruct L as [L _]. repeat split; auto; try (cbn [set_io j_inst]; rewrite L; discriminate).
         intros p0 Hp. injection Hp as <-. reflexivity.
-      + injection H as <- <-. split; [now apply tstruct_join|]. repeat split; try (simpl; discriminate).
+      + injection H as <- <-. split; [apply tstruct_join; auto|]. repeat split; try (simpl; discriminate).
         intros p0 Hp. destruct io; try discriminate. injection Hp as <-. reflexivity.
     - destruct (ATOM _ _ _ _ _ Hc Hs H) as [A1 [A2 A3]]. repeat split; auto. simpl. discriminate.
     - apply andb_true_iff in Hc. destruct Hc as [Hc1 Hc2]. cbn [tcond] in H.
@@ -243,7 +262,7 @@ Section Data2.
   Proof. unfold bnd. simpl. now rewrite Hne, Z.eqb_refl. Qed.
 
   Notation renv := (renv sc w t o).
-  Notation tstruct := (tstruct c2).
+  Notation tstruct := (tstruct v2 c2).
 
   Definition on1 (j : join) : bool :=
     match j with
@@ -257,21 +276,21 @@ Section Data2.
   Lemma on1_jrel l : forallb is_jrel l = true -> forallb on1 l = true.
   Proof. induction l as [|j l IH]; simpl; auto. rewrite andb_true_iff. intros [H1 H2]. destruct j; try discriminate. simpl; auto. Qed.
   Lemma ons_ext st st' : ext st st' -> ons st' = ons st.
-  Proof. intros [_ [extra [J R]]]. unfold ons. rewrite J, forallb_app, (on1_jrel _ R). apply andb_true_r. Qed.
+  Proof. intros [_ [_ [extra [J R]]]]. unfold ons. rewrite J, forallb_app, (on1_jrel _ R). apply andb_true_r. Qed.
 
-  Lemma inv_join io st tfk afk : inv st -> inv (st_join c2 io st tfk afk).
+  Lemma inv_join io st tfk afk : inv st -> inv (st_join v2 c2 io st tfk afk).
   Proof.
-    intros H src a i Hl. cbn [st_join j_paths j_joins] in *. destruct (H _ _ _ Hl) as [Hge [tg Hn]]. split; auto.
-    exists tg. rewrite nth_error_app1; auto. eapply nth_some_lt; eauto.
+    intros H src a i Hl. cbn [st_join j_paths j_joins] in *. destruct (H _ _ _ Hl) as [Hge [oo [tg Hn]]]. split; auto.
+    exists oo, tg. rewrite nth_error_app1; auto. eapply nth_some_lt; eauto.
   Qed.
 
   (* the row of t sits at the instance recorded for c2 *)
   Lemma target_row st env ti : tstruct st -> assoc c2 (j_inst st) = Some ti -> renv st = Some env ->
     nth_error env ti = Some (row_of t).
   Proof.
-    intros Hs Ha He. assert (L := tstruct_lookup c2 st Hs). rewrite Ha in L.
+    intros Hs Ha He. assert (L := tstruct_lookup v2 c2 st Hs). rewrite Ha in L. destruct L as [L _].
     unfold EqlToSqlJoinProofs.tstruct in Hs. rewrite L in Hs.
-    destruct Hs as [_ [js1 [jT [js2 [J [T [R1 [R2 RT]]]]]]]].
+    destruct Hs as [_ [_ [js1 [jT [js2 [J [T [R1 [R2 RT]]]]]]]]].
     unfold EqlToSqlProofs.renv in He. rewrite J, build_env_app in He.
     destruct (build_env sc w t [row_of o] js1) as [e1|] eqn:E1; try discriminate.
     destruct (build_env_prefix _ _ _ _ _ _ E1) as [m1 [Em L1]].
@@ -308,7 +327,7 @@ Section Data2.
       exists (Some p), st', more, b, true. split; [exact T|]. split; [exact I|]. split; [exact R|]. split; [exact E|].
       split; [rewrite (ons_ext st st' (tcond_ext sc sel root vars c0 io st (Some p) st' Hs T)); now rewrite andb_true_r|].
       split; [intros more'; simpl; now rewrite V|]. intros _. split; [reflexivity|discriminate]. }
-    induction c as [op l r|ct it|p1 IH1 q1 IH2|p1 IH1 q1 IH2|p1 _|x|cs0 it0]; intros io st env Hi Hs He Hc Hd;
+    induction c as [op l r|ct it|p1 IH1 q1 IH2|p1 IH1 q1 IH2|p1 _|x|cs0 it0|]; intros io st env Hi Hs He Hc Hd;
       cbn [cond_shape2 cond_ok2] in Hc, Hd; try discriminate.
     - (* comparison: an equality join, or an atom over the selected variable *)
       assert (NJ : (join_atom sel v2 l r = None \/ op <> OEq) ->
@@ -342,7 +361,12 @@ Section Data2.
       assert (COL : col (row_of t) r2 = enc_val b /\ col (row_of o) r1 = enc_val a).
       { rewrite !col_row_of, Ea, Eb. auto. }
       destruct COL as [Ct Co].
-      cbn [tcond]. unfold tcmp, vars. rewrite (teqjoin_atom sc sel root v2 c2 Hne Hrel io st l r r1 r2 sw Ej K1 K2).
+      cbn [tcond]. unfold tcmp, vars.
+      assert (ONS0 : ons (set_io io st) = ons st) by reflexivity. rewrite <- ONS0.
+      assert (Hi0 : inv (set_io io st)) by exact Hi. assert (Hs0 : tstruct (set_io io st)) by exact Hs.
+      assert (He0 : renv (set_io io st) = Some env) by exact He.
+      clear ONS0 NJ. generalize dependent (set_io io st). clear Hi Hs He st. intros st Hi Hs He.
+      rewrite (teqjoin_atom sc sel root v2 c2 Hne Hrel io st l r r1 r2 sw Hs Ej K1 K2).
       destruct (assoc c2 (j_inst st)) as [ti|] eqn:Et.
       + (* the table is joined already: the equality is an ordinary condition *)
         exists (Some (eqc ti r2 r1)), st, [], (tv_true (sql_eq (enc_val b) (enc_val a))), true.
@@ -355,10 +379,10 @@ Section Data2.
       + (* first equality join: JEq (conjunctive level) or JCross + condition (inside an or_) *)
         assert (Hlen : length env = S (length (j_joins st))).
         { destruct (build_env_prefix _ _ _ _ _ _ He) as [m [-> Hm]]. simpl. now rewrite Hm. }
-        assert (He' : renv (st_join c2 io st r2 r1) = Some (env ++ [row_of t])).
+        assert (He' : renv (st_join v2 c2 io st r2 r1) = Some (env ++ [row_of t])).
         { unfold EqlToSqlProofs.renv in *. cbn [st_join j_joins]. rewrite build_env_app, He. destruct io; reflexivity. }
         destruct io.
-        * exists (Some (eqc (S (length (j_joins st))) r2 r1)), (st_join c2 true st r2 r1), [row_of t],
+        * exists (Some (eqc (S (length (j_joins st))) r2 r1)), (st_join v2 c2 true st r2 r1), [row_of t],
             (tv_true (sql_eq (enc_val b) (enc_val a))), true.
           split; [reflexivity|]. split; [now apply inv_join|]. split; [exact He'|]. split; [exact EV|].
           split; [unfold ons; cbn [st_join j_joins]; rewrite forallb_app; simpl; now rewrite !andb_true_r|].
@@ -367,7 +391,7 @@ Section Data2.
           rewrite <- app_assoc. rewrite nth_error_app2 by lia. rewrite Nat.sub_diag. simpl nth_error.
           assert (R0 := renv_root2 st env He). destruct env as [|r0 env']; try discriminate. simpl in R0. injection R0 as ->.
           simpl. now rewrite Ct, Co.
-        * exists None, (st_join c2 false st r2 r1), [row_of t],
+        * exists None, (st_join v2 c2 false st r2 r1), [row_of t],
             (tv_true (sql_eq (enc_val b) (enc_val a))), (tv_true (sql_eq (enc_val b) (enc_val a))).
           split; [reflexivity|]. split; [now apply inv_join|]. split; [exact He'|]. split; [exact EV|].
           split; [unfold ons; cbn [st_join j_joins]; rewrite forallb_app; simpl; now rewrite Ct, Co, andb_true_r|].
@@ -440,55 +464,48 @@ Section Final2.
     build_env sc w t1 env js = build_env sc w t2 env js.
   Proof.
     induction js as [|j js IH]; simpl; auto. rewrite andb_true_iff. intros [H1 H2] env.
-    destruct j; try discriminate. simpl. destruct (ecol env src a); auto. destruct (find_obj w z); auto.
-    destruct (inst_of sc tgt o); auto.
+    destruct j as [oo src a tgt|oo c|c tfk an afk]; try discriminate. simpl. destruct (ecol env src a); auto.
+    destruct (find_obj w z) as [ob|]; auto. destruct (inst_of sc tgt ob); auto.
   Qed.
 
   (* the ON condition of the join that brings in c2's table, for the pair (o, t) *)
   Definition onj (o t : obj) (j : join) : bool := on1 o t j.
 
-  Lemma target_rows o e1 m jT : e1 = [row_of o] ++ m -> is_target c2 jT = true ->
+  Lemma target_rows o e1 m jT : e1 = [row_of o] ++ m -> is_target c2 jT = true -> instances sc w c2 <> [] ->
     join_rows (encode sc w) e1 jT = map row_of (filter (fun t => onj o t jT) (instances sc w c2)).
   Proof.
-    intros -> HT. destruct jT as [| c | c tfk an afk]; try discriminate; simpl in HT.
-    - apply Z.eqb_eq in HT. subst c. simpl. unfold encode. now rewrite filter_true.
+    intros -> HT Hne2. destruct jT as [| oo c | c tfk an afk]; try discriminate; simpl in HT.
+    - apply Z.eqb_eq in HT. subst c. simpl. unfold encode. rewrite filter_true.
+      destruct (instances sc w c2); [now destruct Hne2|]. now destruct oo.
     - apply andb_true_iff in HT. destruct HT as [Hc Ha]. apply Z.eqb_eq in Hc. apply Nat.eqb_eq in Ha. subst c an.
       simpl. unfold encode. rewrite filter_map_comm. reflexivity.
   Qed.
 
   Lemma pair_envs o js1 jT js2 (envf : obj -> list row) :
-    forallb is_jrel js1 = true -> forallb is_jrel js2 = true -> is_target c2 jT = true ->
+    forallb is_jrel js1 = true -> forallb is_jrel js2 = true -> is_target c2 jT = true -> instances sc w c2 <> [] ->
     (forall t, In t (instances sc w c2) -> build_env sc w t [row_of o] (js1 ++ jT :: js2) = Some (envf t)) ->
     envs_of (encode sc w) (js1 ++ jT :: js2) [[row_of o]] =
       map envf (filter (fun t => onj o t jT) (instances sc w c2)).
   Proof.
-    intros R1 R2 HT Hb. rewrite envs_of_app.
-    destruct (instances sc w c2) as [|t0 ts] eqn:Ei.
-    - (* c2's table is empty *)
-      simpl. assert (Hz : forall envs, flat_map (fun env => map (fun r => env ++ [r]) (join_rows (encode sc w) env jT)) envs = []).
-      { intros envs. induction envs as [|e envs IH]; simpl; auto. rewrite IH, app_nil_r.
-        destruct jT as [| c | c tfk an afk]; try discriminate; simpl in HT.
-        - apply Z.eqb_eq in HT. subst c. simpl. unfold encode. now rewrite Ei.
-        - apply andb_true_iff in HT. destruct HT as [Hc _]. apply Z.eqb_eq in Hc. subst c.
-          simpl. unfold encode. now rewrite Ei. }
-      rewrite Hz. apply envs_of_nil.
-    - rewrite <- Ei in *.
-      assert (H0 := Hb t0). rewrite Ei in H0. specialize (H0 (or_introl eq_refl)).
-      rewrite build_env_app in H0. destruct (build_env sc w t0 [row_of o] js1) as [e1|] eqn:E1; try discriminate.
-      destruct (build_env_prefix _ _ _ _ _ _ E1) as [m1 [Em _]].
-      rewrite (envs_of_build sc w Hnd t0 js1 R1 [[row_of o]] [e1]) by (constructor; auto).
-      simpl envs_of at 1. rewrite app_nil_r. rewrite (target_rows o e1 m1 jT Em HT), map_map.
-      apply (envs_of_build sc w Hnd t0 js2 R2).
-      assert (HF : forall l, (forall t, In t l -> In t (instances sc w c2)) ->
-                Forall2 (fun env out => build_env sc w t0 env js2 = Some out)
-                        (map (fun x => e1 ++ [row_of x]) l) (map envf l)).
-      { induction l as [|t l IH]; intros Hl; simpl; constructor.
-        - assert (Ht := Hb t (Hl t (or_introl eq_refl))). rewrite build_env_app in Ht.
-          rewrite (build_env_irrel t t0 js1 R1), E1 in Ht. cbn [build_env] in Ht.
-          assert (Hst : step_env sc w t e1 jT = Some (e1 ++ [row_of t])) by (destruct jT; try discriminate; reflexivity).
-          rewrite Hst in Ht. now rewrite (build_env_irrel t0 t js2 R2).
-        - apply IH. intros; apply Hl; now right. }
-      apply HF. intros t Ht. apply filter_In in Ht. tauto.
+    intros R1 R2 HT Hne2 Hb. rewrite envs_of_app.
+    destruct (instances sc w c2) as [|t0 ts] eqn:Ei; [now destruct Hne2|].
+    rewrite <- Ei in *.
+    assert (H0 := Hb t0). rewrite Ei in H0. specialize (H0 (or_introl eq_refl)).
+    rewrite build_env_app in H0. destruct (build_env sc w t0 [row_of o] js1) as [e1|] eqn:E1; try discriminate.
+    destruct (build_env_prefix _ _ _ _ _ _ E1) as [m1 [Em _]].
+    rewrite (envs_of_build sc w Hnd t0 js1 R1 [[row_of o]] [e1]) by (constructor; auto).
+    simpl envs_of at 1. rewrite app_nil_r. rewrite (target_rows o e1 m1 jT Em HT Hne2), map_map.
+    apply (envs_of_build sc w Hnd t0 js2 R2).
+    assert (HF : forall l, (forall t, In t l -> In t (instances sc w c2)) ->
+              Forall2 (fun env out => build_env sc w t0 env js2 = Some out)
+                      (map (fun x => e1 ++ [row_of x]) l) (map envf l)).
+    { induction l as [|t l IH]; intros Hl; simpl; constructor.
+      - assert (Ht := Hb t (Hl t (or_introl eq_refl))). rewrite build_env_app in Ht.
+        rewrite (build_env_irrel t t0 js1 R1), E1 in Ht. cbn [build_env] in Ht.
+        assert (Hst : step_env sc w t e1 jT = Some (e1 ++ [row_of t])) by (destruct jT; try discriminate; reflexivity).
+        rewrite Hst in Ht. now rewrite (build_env_irrel t0 t js2 R2).
+      - apply IH. intros; apply Hl; now right. }
+    apply HF. intros t Ht. apply filter_In in Ht. tauto.
   Qed.
 
   Lemma rows_of_pairs (wt : list row -> bool) (ef : obj -> list row) (on g : obj -> bool) (k : Z) (ts : list obj) :
@@ -540,17 +557,18 @@ Proof.
   destruct (q_vars q) as [|[v root] [|[v2 c2] [|]]] eqn:Ev; try discriminate.
   destruct (q_cond q) as [c|] eqn:Ec; try discriminate.
   repeat (apply andb_true_iff in Hf; destruct Hf as [Hf ?]).
-  rename H into Hall, H0 into Hnd, H1 into Hj, H2 into Hshape, H3 into Hrel, H4 into Hne, H5 into Hf0.
+  rename H into Hall, H0 into Hne2, H1 into Hnd, H2 into Hj, H3 into Hshape, H4 into Hrel, H5 into Hne, H6 into Hf0.
+  assert (Hne2' : instances sc w c2 <> []) by (destruct (instances sc w c2); [discriminate|discriminate]).
   apply negb_true_iff in Hf. unfold translate in Ht. rewrite Hf in Ht. clear Hf. rename Hf0 into Hf.
   apply Z.eqb_eq in Hf. apply negb_true_iff in Hrel, Hne.
   rewrite Ev, Ec, <- Hf in Ht. simpl assoc in Ht. rewrite Z.eqb_refl in Ht.
   destruct (tcond sc [(v, root); (v2, c2)] v root false jm0 c) as [p st| | |] eqn:Et; try discriminate.
   injection Ht as <-.
   (* shape of the statement *)
-  destruct (tcond2_struct sc v root v2 c2 Hne Hrel c false jm0 p st Hshape eq_refl Et) as [Hs [Hj' [_ Hbad]]].
+  destruct (tcond2_struct sc v root v2 c2 Hne Hrel c false jm0 p st Hshape (conj eq_refl eq_refl) Et) as [Hs [Hj' [_ Hbad]]].
   specialize (Hj' Hj). unfold tstruct in Hs.
   destruct (j_inst st) as [|[cc ti] [|]] eqn:Ei; try tauto.
-  destruct Hs as [-> [js1 [jT [js2 [J [Hti [R1 [R2 HT]]]]]]]].
+  destruct Hs as [-> [_ [js1 [jT [js2 [J [Hti [R1 [R2 HT]]]]]]]]].
   assert (Hb : match p with Some p0 => pred_bad p0 | None => false end = false) by (destruct p; auto).
   unfold sem_res, sem. cbn [s_invalid s_where s_joins s_root]. rewrite Hb. cbn [orb].
   unfold answers. rewrite Ev, Ec. cbn [bindings]. rewrite <- Hf.
@@ -563,7 +581,7 @@ Proof.
             eval_cond w [(v, o); (v2, t)] c = Ok (g o t) /\ root_id (ef o t) = o_key o /\
             onj o t jT && where_true {| s_root := root; s_joins := j_joins st; s_where := p; s_invalid := false |} (ef o t) = g o t).
   { intros o t Ho Hto. assert (Hd := Hall o Ho). rewrite forallb_forall in Hd. specialize (Hd t Hto).
-    destruct (tcond_ok2 sc w o t v root v2 c2 Hne Hrel c false jm0 [row_of o] inv_jm0 eq_refl eq_refl Hshape Hd)
+    destruct (tcond_ok2 sc w o t v root v2 c2 Hne Hrel c false jm0 [row_of o] inv_jm0 (conj eq_refl eq_refl) eq_refl Hshape Hd)
       as [p' [st' [more [b [d [T [I [R [E [O [V _]]]]]]]]]]].
     rewrite Et in T. injection T as <- <-. unfold renv in R. unfold ef, g. rewrite R, E.
     split; auto. split; auto. split; [reflexivity|].
@@ -579,7 +597,7 @@ Proof.
     { induction os as [|o os IH]; intros Hos; simpl; auto.
       rewrite filter_app, map_app, IH by (intros; apply Hos; now right). f_equal.
       assert (Ho := Hos o (or_introl eq_refl)).
-      rewrite J, (pair_envs sc w Hnd c2 o js1 jT js2 (ef o) R1 R2 HT).
+      rewrite J, (pair_envs sc w Hnd c2 o js1 jT js2 (ef o) R1 R2 HT Hne2').
       - apply rows_of_pairs.
         + intros t Ht _. apply (Hpair o t Ho Ht).
         + intros t Ht. apply (Hpair o t Ho Ht).
@@ -601,18 +619,18 @@ Proof. intros H1 H2 E1 E2 k. rewrite (agree_join sc q w s H1 H2) in E1. rewrite 
 (* ---------- every F07J query is accepted (syntactic) ---------- *)
 Lemma tcond2_total sc sel root v2 c2 (Hne : (v2 =? sel) = false) (Hrel : related sc c2 root = false) c :
   cond_shape2 sc sel root v2 c2 c = true ->
-  forall io st, tstruct c2 st -> exists p st', tcond sc [(sel, root); (v2, c2)] sel root io st c = ROk p st'.
+  forall io st, tstruct v2 c2 st -> exists p st', tcond sc [(sel, root); (v2, c2)] sel root io st c = ROk p st'.
 Proof.
   assert (Hv := vars_sel sel root v2 c2).
-  induction c as [op l r|ct it|p1 IH1 q1 IH2|p1 IH1 q1 IH2|p1 _|x|cs0 it0]; intros Hc io st Hs; cbn [cond_shape2] in Hc; try discriminate.
+  induction c as [op l r|ct it|p1 IH1 q1 IH2|p1 IH1 q1 IH2|p1 _|x|cs0 it0|]; intros Hc io st Hs; cbn [cond_shape2] in Hc; try discriminate.
   - assert (NJ : cond_shape sc sel root (CCmp op l r) = true ->
                  exists p st', tcond sc [(sel, root); (v2, c2)] sel root io st (CCmp op l r) = ROk p st').
     { intros Hc'. destruct (tcond_total sc sel root _ Hv _ Hc' io st) as [p [st' T]]. eauto. }
     destruct op; try (now apply NJ).
     destruct (join_atom sel v2 l r) as [[[r1 r2] sw]|] eqn:Ej; [|now apply NJ].
     apply andb_true_iff in Hc. destruct Hc as [K1 K2].
-    cbn [tcond]. unfold tcmp. rewrite (teqjoin_atom sc sel root v2 c2 Hne Hrel io st l r r1 r2 sw Ej K1 K2).
-    destruct (assoc c2 (j_inst st)); eauto.
+    cbn [tcond]. unfold tcmp. rewrite (teqjoin_atom sc sel root v2 c2 Hne Hrel io (set_io io st) l r r1 r2 sw Hs Ej K1 K2).
+    cbn [set_io j_inst]. destruct (assoc c2 (j_inst st)); eauto.
   - destruct (tcond_total sc sel root _ Hv _ Hc io st) as [p [st' T]]. eauto.
   - apply andb_true_iff in Hc. destruct Hc as [Hc1 Hc2]. cbn [tcond].
     destruct (IH1 Hc1 io st Hs) as [a [st1 T1]]. rewrite T1.
@@ -631,9 +649,9 @@ Proof.
   destruct (q_vars q) as [|[v root] [|[v2 c2] [|]]] eqn:Ev; try discriminate.
   destruct (q_cond q) as [c|] eqn:Ec; try discriminate.
   repeat (apply andb_true_iff in Hf; destruct Hf as [Hf ?]).
-  rename H2 into Hshape, H3 into Hrel, H4 into Hne, H5 into Hf0. apply negb_true_iff in Hf. apply Z.eqb_eq in Hf0.
+  rename H3 into Hshape, H4 into Hrel, H5 into Hne, H6 into Hf0. apply negb_true_iff in Hf. apply Z.eqb_eq in Hf0.
   apply negb_true_iff in Hrel, Hne.
-  destruct (tcond2_total sc v root v2 c2 Hne Hrel c Hshape false jm0 eq_refl) as [p [st T]].
+  destruct (tcond2_total sc v root v2 c2 Hne Hrel c Hshape false jm0 (conj eq_refl eq_refl)) as [p [st T]].
   unfold translate. rewrite Hf, Ev, Ec, <- Hf0. simpl assoc. rewrite Z.eqb_refl, T. eauto.
 Qed.
 
@@ -649,15 +667,15 @@ Proof.
 Qed.
 (* a root row whose foreign key for the first hop of a joined path is NULL contributes nothing *)
 Theorem noneref_drops s d r js1 a tgt js2 :
-  s_joins s = js1 ++ JRel 0%nat a tgt :: js2 -> col r a = VNull -> contribution s d r = [].
+  s_joins s = js1 ++ JRel false 0%nat a tgt :: js2 -> col r a = VNull -> contribution s d r = [].
 Proof.
   intros J Hn. unfold contribution. rewrite J, envs_of_app.
   assert (Hz : forall envs, (forall env, In env envs -> nth_error env 0 = Some r) ->
-            envs_of d (JRel 0%nat a tgt :: js2) envs = []).
+            envs_of d (JRel false 0%nat a tgt :: js2) envs = []).
   { intros envs He. cbn [envs_of].
-    assert (Hf : flat_map (fun env => map (fun r0 => env ++ [r0]) (join_rows d env (JRel 0%nat a tgt))) envs = []).
+    assert (Hf : flat_map (fun env => map (fun r0 => env ++ [r0]) (join_rows d env (JRel false 0%nat a tgt))) envs = []).
     { induction envs as [|e envs IH]; cbn [flat_map]; auto. rewrite IH by (intros; apply He; now right).
-      assert (Hj : join_rows d e (JRel 0%nat a tgt) = []).
+      assert (Hj : join_rows d e (JRel false 0%nat a tgt) = []).
       { cbn [join_rows]. unfold ecol. rewrite (He e (or_introl eq_refl)), Hn. induction (d tgt); simpl; auto. }
       now rewrite Hj. }
     rewrite Hf. apply envs_of_nil. }
@@ -704,7 +722,7 @@ Module WitJ.
   Definition q_namedvar := Wit.mk false [(1, 8); (2, 5)] (CCmp OEq (OVar 2) (OAttr 1 [10])).
   Definition q_namedvar_right := Wit.mk false [(1, 8); (2, 5)] (CCmp OEq (OAttr 1 [10]) (OVar 2)).
   (* class 13 Atom(element = 14 : Enum, type = 15): atoms 1 (C, 1), 2 (H, 0), 3 (C, 2); an Enum member is VStr (0 :: name) *)
-  Definition sce : schema := {| sc_fields := [(13, [(14, FScalar); (15, FScalar)])]; sc_sub := [(13, 13)]; sc_enums := [(13, 14)] |}.
+  Definition sce : schema := {| sc_fields := [(13, [(14, FScalar); (15, FScalar)])]; sc_sub := [(13, 13)]; sc_enums := [(13, 14)]; sc_nums := [(13, 15)]; sc_texts := [] |}.
   Definition eC : val := VStr [0; 67].
   Definition eH : val := VStr [0; 72].
   Definition we : world :=
@@ -716,6 +734,19 @@ Module WitJ.
     (CAnd (CAnd (CTruth (OAttr 1 [14])) (COr (CCmp OEq (OAttr 1 [14]) (OLit eC)) (CContains (OList [eH]) (OAttr 1 [14]))))
           (CTruth (OAttr 1 [15]))).
   Definition q_enum_lt := Wit.mk false [(1, 13)] (CCmp OLt (OAttr 1 [14]) (OLit eH)).
+  (* round 7 *)
+  (* two prismatic variables joined to f: and_(f.parent == pc.child, f.child == pc2.parent) *)
+  Definition q_two_vars := Wit.mk false [(1, 8); (2, 9); (3, 9)]
+    (CAnd (CCmp OEq (OAttr 1 [10]) (OAttr 2 [11])) (CCmp OEq (OAttr 1 [11]) (OAttr 3 [10]))).
+  (* a chain longer than one hop in a join equality: f.parent.name-like prefix, here f.parent.parent == pc.child *)
+  Definition q_long_join := Wit.mk false [(1, 8); (2, 9)] (CCmp OEq (OAttr 1 [10; 10]) (OAttr 2 [11])).
+  Definition q_other := Wit.mk false [(1, 5)] COther.                                   (* b.name.upper() == "A" *)
+  Definition q_text_number := Wit.mk false [(1, 5)] (CCmp OEq (OAttr 1 [9]) (OLit (VStr [49]))).   (* b.size == "1" *)
+  Definition q_text_number_in := Wit.mk false [(1, 5)] (CContains (OList [VStr [49]; VInt 7]) (OAttr 1 [9])).
+  Definition q_none_in := Wit.mk false [(1, 3)] (CContains (OList [VNull; VInt 2]) (OAttr 1 [6])).   (* in_(o.w, [None, 2]) *)
+  Definition q_plain_var := Wit.mk false [(1, 5); (2, 100)] (CCmp OEq (OAttr 1 [9]) (OVar 2)).     (* b.size == let(int, ...) *)
+  (* or_(f.parent == pc.child, f.child.size == 2) in a world without any prismatic connection *)
+  Definition w_nopc : world := filter (fun o => negb (o_cls o =? 9)) Wit.w.
 End WitJ.
 
 Lemma nonvacuous_join :
@@ -736,11 +767,24 @@ Lemma nonvacuous_join :
 Proof. repeat split; vm_compute; reflexivity. Qed.
 
 Lemma refuted_noneref :
-  (* below or_: memory never dereferences the None position of pose 5 and returns it; the inner join drops it *)
-  (model_res Wit.sc WitJ.q_noneref_or WitJ.wn = Some (Ok [6]) /\ answers Wit.sc WitJ.q_noneref_or WitJ.wn = Ok [5; 6]) /\
-  (* alone: memory raises AttributeError, SQL answers *)
-  (model_res Wit.sc WitJ.q_noneref WitJ.wn = Some (Ok [6]) /\ answers Wit.sc WitJ.q_noneref WitJ.wn = Err AttrErr) /\
-  f07 Wit.sc WitJ.q_noneref_or WitJ.wn = false.
+  (* a None reference in a conjunctive chain: memory raises AttributeError, the inner join drops the row and SQL answers *)
+  model_res Wit.sc WitJ.q_noneref WitJ.wn = Some (Ok [6]) /\ answers Wit.sc WitJ.q_noneref WitJ.wn = Err AttrErr /\
+  f07 Wit.sc WitJ.q_noneref WitJ.wn = false.
+Proof. repeat split; vm_compute; reflexivity. Qed.
+(* repaired (873189c): joins made below an or_ are outer joins: the pose without position is kept, as in memory *)
+Lemma fixed_noneref_or :
+  model_res Wit.sc WitJ.q_noneref_or WitJ.wn = Some (Ok [5; 6]) /\ answers Wit.sc WitJ.q_noneref_or WitJ.wn = Ok [5; 6].
+Proof. split; vm_compute; reflexivity. Qed.
+(* round 7 repairs: rejections, None inside in_, an or-join over an empty other table *)
+Lemma fixed_round7 :
+  translate Wit.sc WitJ.q_two_vars = TReject /\ translate Wit.sc WitJ.q_long_join = TReject /\
+  translate Wit.sc WitJ.q_other = TReject /\ translate Wit.sc WitJ.q_text_number = TReject /\
+  translate Wit.sc WitJ.q_text_number_in = TReject /\ translate Wit.sc WitJ.q_plain_var = TReject /\
+  (model_res Wit.sc WitJ.q_none_in Wit.w = Some (Ok [3]) /\ answers Wit.sc WitJ.q_none_in Wit.w = Ok [3]) /\
+  (* no prismatic connection at all: the statement keeps every fixed connection once (LEFT JOIN ... ON true) and the
+     comparison decides; [answers], which ranges over assignments of BOTH variables, is empty: outside F07J *)
+  (model_res Wit.sc WitJ.q_join_or WitJ.w_nopc = Some (Ok [10]) /\ answers Wit.sc WitJ.q_join_or WitJ.w_nopc = Ok [] /\
+   f07j Wit.sc WitJ.q_join_or WitJ.w_nopc = false).
 Proof. repeat split; vm_compute; reflexivity. Qed.
 
 (* repaired (cbfdb2e): a set_of query is rejected *)
@@ -766,10 +810,11 @@ Proof.
   intros Hc Ho He s. unfold translate. destruct (q_setof q); try discriminate. rewrite Hc.
   destruct (assoc (q_sel q) (q_vars q)) as [root|]; try discriminate.
   cbn [tcond]. unfold tcmp.
-  assert (E : teqjoin sc (q_vars q) root false jm0 op l r = None) by (destruct op; try discriminate; reflexivity).
+  assert (E : forall st, teqjoin sc (q_vars q) (q_sel q) root false st op l r = None) by (intros st; destruct op; try discriminate; reflexivity).
   rewrite E. destruct (negb (rel_check sc (q_vars q) (eqne op) l r)); try discriminate.
-  destruct (toperand sc (q_vars q) (q_sel q) root jm0 l) as [a st1| | |]; try discriminate.
-  destruct (toperand sc (q_vars q) (q_sel q) root st1 r) as [b st2| | |]; try discriminate.
+  destruct (toperand sc (q_sel q) root (set_io false jm0) l) as [a st1| | |]; try discriminate.
+  destruct (toperand sc (q_sel q) root st1 r) as [b st2| | |]; try discriminate.
+  destruct (lit_mismatch sc (q_vars q) l r || lit_mismatch sc (q_vars q) r l); try discriminate.
   rewrite Ho, He. discriminate.
 Qed.
 
@@ -787,11 +832,54 @@ Proof.
   intros Hc Hv s. unfold translate. destruct (q_setof q); try discriminate. rewrite Hc.
   destruct (assoc (q_sel q) (q_vars q)) as [root|]; try discriminate.
   cbn [tcond]. unfold tcmp.
-  assert (E : teqjoin sc (q_vars q) root false jm0 op l r = None).
-  { destruct Hv as [-> | ->]; destruct op; try reflexivity; destruct l; reflexivity. }
+  assert (E : forall st, teqjoin sc (q_vars q) (q_sel q) root false st op l r = None).
+  { intros st. destruct Hv as [-> | ->]; destruct op; try reflexivity; destruct l as [? [|? [|]]| | |]; reflexivity. }
   rewrite E. destruct (negb (rel_check sc (q_vars q) (eqne op) l r)); try discriminate.
-  destruct Hv as [-> | ->].
-  - cbn [toperand]. destruct (assoc v (q_vars q)); discriminate.
-  - destruct (toperand sc (q_vars q) (q_sel q) root jm0 l) as [a st1| | |]; try discriminate.
-    cbn [toperand]. destruct (assoc v (q_vars q)); discriminate.
+  destruct Hv as [-> | ->]; try discriminate.
+  destruct (toperand sc (q_sel q) root (set_io false jm0) l) as [a st1| | |]; discriminate.
+Qed.
+
+(* ---------- the rejections of round 7 ---------- *)
+(* an operand the translator does not know (method call, index on an attribute) is never answered, at any depth *)
+Fixpoint has_other (c : cond) : bool :=
+  match c with COther => true | CAnd p q | COr p q => has_other p || has_other q | _ => false end.
+Lemma tcond_other sc vars sel root c : has_other c = true -> forall io st p st', tcond sc vars sel root io st c <> ROk p st'.
+Proof.
+  induction c as [op l r|ct it|p1 IH1 q1 IH2|p1 IH1 q1 IH2|p1 _|x|cs0 it0|]; intros Hn io st p st'; simpl in Hn; try discriminate.
+  - cbn [tcond]. destruct (tcond sc vars sel root io st p1) as [a st1| | |] eqn:E1; try discriminate.
+    destruct (has_other p1) eqn:N1; [exfalso; eapply IH1; eauto|]. simpl in Hn.
+    destruct (tcond sc vars sel root io st1 q1) as [b st2| | |] eqn:E2; try discriminate. exfalso; eapply IH2; eauto.
+  - cbn [tcond]. destruct (tcond sc vars sel root true st p1) as [a st1| | |] eqn:E1; try discriminate.
+    destruct (has_other p1) eqn:N1; [exfalso; eapply IH1; eauto|]. simpl in Hn.
+    destruct (tcond sc vars sel root true st1 q1) as [b st2| | |] eqn:E2; try discriminate. exfalso; eapply IH2; eauto.
+Qed.
+Theorem rejects_other sc q c : q_cond q = Some c -> has_other c = true -> forall s, translate sc q <> TOk s.
+Proof.
+  intros Hc Hn s. unfold translate. destruct (q_setof q); try discriminate.
+  rewrite Hc. destruct (assoc (q_sel q) (q_vars q)); try discriminate.
+  destruct (tcond sc (q_vars q) (q_sel q) z false jm0 c) eqn:E; try discriminate. exfalso. eapply tcond_other; eauto.
+Qed.
+(* a text literal against a numeric column, a number against a text column *)
+Theorem rejects_text_number sc q op v ch lit :
+  q_cond q = Some (CCmp op (OAttr v ch) (OLit lit)) -> operand_mismatch sc (q_vars q) (OAttr v ch) lit = true ->
+  forall s, translate sc q <> TOk s.
+Proof.
+  intros Hc Hm s. unfold translate. destruct (q_setof q); try discriminate. rewrite Hc.
+  destruct (assoc (q_sel q) (q_vars q)) as [root|]; try discriminate.
+  cbn [tcond]. unfold tcmp. rewrite teqjoin_lit_none.
+  destruct (negb (rel_check sc (q_vars q) (eqne op) (OAttr v ch) (OLit lit))); try discriminate.
+  destruct (toperand sc (q_sel q) root (set_io false jm0) (OAttr v ch)) as [a st1| | |]; try discriminate.
+  cbn [toperand lit_mismatch]. rewrite Hm. discriminate.
+Qed.
+(* a join equality whose side is a chain of more than one hop is no join: the other variable's attribute is rejected *)
+Theorem rejects_long_join sc q v1 a1 b1 ch1 v2 ch2 :
+  q_cond q = Some (CCmp OEq (OAttr v1 (a1 :: b1 :: ch1)) (OAttr v2 ch2)) -> v2 <> q_sel q ->
+  forall s, translate sc q <> TOk s.
+Proof.
+  intros Hc Hv s. unfold translate. destruct (q_setof q); try discriminate. rewrite Hc.
+  destruct (assoc (q_sel q) (q_vars q)) as [root|]; try discriminate.
+  cbn [tcond]. unfold tcmp. cbn [teqjoin].
+  destruct (negb (rel_check sc (q_vars q) (eqne OEq) (OAttr v1 (a1 :: b1 :: ch1)) (OAttr v2 ch2))); try discriminate.
+  destruct (toperand sc (q_sel q) root (set_io false jm0) (OAttr v1 (a1 :: b1 :: ch1))) as [a st1| | |]; try discriminate.
+  unfold toperand, tattr. apply Z.eqb_neq in Hv. rewrite Hv. discriminate.
 Qed.
